@@ -80,12 +80,12 @@ fn kinds() -> Vec<KindDef> {
     });
     vec![
         KindDef { name: "sector-crc", spec: base(1, Attrs::CrcsThenNone, true, files_basic()), signed: false, protects: &["file-data"] },
-        KindDef { name: "attr-crc32", spec: base(1, Attrs::Crc32, false, files_basic()), signed: false, protects: &["file-data", "attributes-file"] },
-        KindDef { name: "attr-full-md5", spec: base(2, Attrs::Full, false, files_basic()), signed: false, protects: &["file-data", "attributes-file"] },
-        KindDef { name: "v3-attr-crc32", spec: base(3, Attrs::Crc32, false, files_basic()), signed: false, protects: &["file-data", "attributes-file"] },
+        KindDef { name: "attr-crc32", spec: base(1, Attrs::Crc32, false, files_basic()), signed: false, protects: &["file-data", "sector-offset-table", "attributes-file"] },
+        KindDef { name: "attr-full-md5", spec: base(2, Attrs::Full, false, files_basic()), signed: false, protects: &["file-data", "sector-offset-table", "attributes-file"] },
+        KindDef { name: "v3-attr-crc32", spec: base(3, Attrs::Crc32, false, files_basic()), signed: false, protects: &["file-data", "sector-offset-table", "attributes-file"] },
         KindDef { name: "v4-digests", spec: base(4, Attrs::None, false, files_basic()), signed: false, protects: &["header", "hash-table", "block-table", "het-table", "bet-table"] },
-        KindDef { name: "v4-digests-attr", spec: base(4, Attrs::Full, false, files_basic()), signed: false, protects: &["header", "hash-table", "block-table", "het-table", "bet-table", "file-data", "attributes-file"] },
-        KindDef { name: "weak-signature", spec: base(1, Attrs::None, false, signed_files), signed: true, protects: &["header", "hash-table", "block-table", "file-data", "listfile", "signature-file", "slack"] },
+        KindDef { name: "v4-digests-attr", spec: base(4, Attrs::Full, false, files_basic()), signed: false, protects: &["header", "hash-table", "block-table", "het-table", "bet-table", "file-data", "sector-offset-table", "attributes-file"] },
+        KindDef { name: "weak-signature", spec: base(1, Attrs::None, false, signed_files), signed: true, protects: &["header", "hash-table", "block-table", "file-data", "sector-offset-table", "listfile", "signature-file", "slack"] },
     ]
 }
 
@@ -122,14 +122,21 @@ fn build(k: &KindDef, dir: &std::path::Path) -> Result<Built, String> {
     let mut add_file = |ar: &mut Archive, name: &str, class: &'static str, file: Option<usize>, len: usize| -> Result<(), String> {
         let info = ar.find_file(name).map_err(|e| e.to_string())?.ok_or(format!("{name} not found"))?;
         let mut stored = info.compressed_size as usize;
-        if crc_on && name != "(attributes)" {
-            if len <= sector {
-                stored += 4;
-            } else {
-                stored += len.div_ceil(sector) * 4;
-            }
+        // single-unit files carry their 4-byte checksum behind the stored bytes (not counted in the
+        // block table's stored size); the checksum sector of a multi-sector file is part of it
+        if crc_on && name != "(attributes)" && len <= sector {
+            stored += 4;
         }
         let start = info.file_pos as usize;
+        if class == "file-data" && len > sector && info.is_compressed() {
+            // sector offset table: n+1 entries (+1 with a checksum sector). It is not covered by
+            // the sector checksums (they cover the stored sectors), only by metadata over the
+            // file's *content* (attributes CRC32/MD5) or over the whole archive (signature)
+            let table = (len.div_ceil(sector) + 1 + (crc_on && name != "(attributes)") as usize) * 4;
+            regions.push(Region { name: format!("{name} sector offset table"), class: "sector-offset-table", start, end: start + table.min(stored), file });
+            regions.push(Region { name: name.to_string(), class, start: start + table.min(stored), end: start + stored, file });
+            return Ok(());
+        }
         if class == "signature-file" {
             // 8-byte header of the (signature) file: neither signed nor part of the signature
             regions.push(Region { name: "(signature) header".into(), class: "signature-header", start, end: start + 8, file });
@@ -554,7 +561,7 @@ fn main() {
          flip data bits and all 512 signature bits. non-trivial = fault inside stored file data or a checksum/digest/signature field; distinct = kind × region × fault shape × outcome",
     );
     check.assume("regions are located with the library's own header/find_file on the intact archive (location only, not judgement)");
-    check.assume("only bytes the present metadata protects are faulted (e.g. hash-table bytes are not protected by per-file CRCs)");
+    check.assume("only bytes the present metadata protects are faulted (e.g. hash-table bytes are not protected by per-file CRCs; the sector offset table of a file is protected by content digests and signatures, not by the per-sector checksums, which cover the stored sectors)");
     check.assume("a panic, abort, OOM or hang on a faulted archive is not silent corruption: it is counted as outcome '…(C05)' and judged by property C05, whose mutators cover the same bytes");
     check.set_exhaustive(check.tier == engine::Tier::Thorough);
 
@@ -652,7 +659,7 @@ fn main() {
         let outs = vcheck::engine::supervise::run_cases(&spec, &cases, engine::WORKERS);
         for ((f, r), o) in faults.iter().zip(outs.iter()) {
             let shape = if f.xor.len() == 1 { format!("xor{:02x}", f.xor[0]) } else if f.set.iter().all(|x| *x == 0) { "zero-span".into() } else { "overwrite".to_string() };
-            let nt = matches!(r.class, "file-data" | "attributes-file" | "signature-file" | "header" | "hash-table" | "block-table" | "het-table" | "bet-table");
+            let nt = matches!(r.class, "file-data" | "sector-offset-table" | "attributes-file" | "signature-file" | "header" | "hash-table" | "block-table" | "het-table" | "bet-table");
             match outcome_to_result(o, f, r.class) {
                 Ok(outcome) => {
                     check.count(&format!("{}:{}:{}:{}", k.name, r.class, shape, outcome), nt);
